@@ -186,10 +186,10 @@ func (sc *vScenario) vSendMsg(kind int, sender string) error {
 	case stMsgRequest:
 		asset, network := vChainFields(sc.liquid)
 		if zzverif.Bool("m.swapin") {
-			m := &SwapInRequestMessage{ProtocolVersion: 7, SwapId: id, Asset: asset, Network: network, Scid: zzverif.Str("m.scid"), Amount: zzverif.U64("m.amount"), Pubkey: zzverif.HexStr("m.pubkey", 33), PremiumLimit: zzverif.I64("m.limit")}
+			m := &SwapInRequestMessage{ProtocolVersion: 7, SwapId: id, Asset: asset, Network: network, Scid: "7x7x7", Amount: zzverif.U64("m.amount"), Pubkey: zzverif.HexStr("m.pubkey", 33), PremiumLimit: zzverif.I64("m.limit")}
 			return sc.svc.OnMessageReceived(sender, vHexType(messages.MESSAGETYPE_SWAPINREQUEST), vMarshal(m))
 		}
-		m := &SwapOutRequestMessage{ProtocolVersion: 7, SwapId: id, Asset: asset, Network: network, Scid: zzverif.Str("m.scid"), Amount: zzverif.U64("m.amount"), Pubkey: zzverif.HexStr("m.pubkey", 33), PremiumLimit: zzverif.I64("m.limit")}
+		m := &SwapOutRequestMessage{ProtocolVersion: 7, SwapId: id, Asset: asset, Network: network, Scid: "7x7x7", Amount: zzverif.U64("m.amount"), Pubkey: zzverif.HexStr("m.pubkey", 33), PremiumLimit: zzverif.I64("m.limit")}
 		return sc.svc.OnMessageReceived(sender, vHexType(messages.MESSAGETYPE_SWAPOUTREQUEST), vMarshal(m))
 	}
 	return nil
